@@ -153,6 +153,9 @@ impl<S: Store> RateLimiter<S> {
             // Saturate instead of wrapping or panicking on extreme limits
             let emission_interval_ns = emission_interval.as_nanos().min(i64::MAX as u128) as i64;
             let delay_variation_tolerance_ns = emission_interval_ns.saturating_mul(max_burst - 1);
+            // Keep a key's state until it can no longer influence a decision:
+            // at least one emission interval past its TAT (matters when max_burst is 1)
+            let retention_ns = delay_variation_tolerance_ns.max(emission_interval_ns);
 
             // Initialize TAT or get from store
             let tat = if let Some(stored_tat) = tat_val {
@@ -180,7 +183,8 @@ impl<S: Store> RateLimiter<S> {
                 let ttl = Duration::from_nanos(
                     new_tat
                         .saturating_sub(now_ns)
-                        .saturating_add(delay_variation_tolerance_ns) as u64,
+                        .max(0)
+                        .saturating_add(retention_ns) as u64,
                 );
 
                 // Try to update - if it fails due to race condition, retry
@@ -228,8 +232,8 @@ impl<S: Store> RateLimiter<S> {
             let reset_after = Duration::from_nanos(
                 current_tat
                     .saturating_sub(now_ns)
-                    .saturating_add(delay_variation_tolerance_ns)
-                    .max(0) as u64,
+                    .max(0)
+                    .saturating_add(retention_ns) as u64,
             );
 
             let retry_after = if allowed {
